@@ -907,7 +907,70 @@ var maxNeighbourhood = []string{
 	"2.2250738585072011e-308", "2.2250738585072012e-308", "2.2250738585072014e-308", "2.2250738585072009e-308", "2.225073858507201136057409796709131975934819546351645648023426109724822222021076945516529523908135087914149158913039621106870086438694594645527657207407820621743379988141063267329253552286881372149012981122451451889849057222307285255133155755015914397476397983411801999323962548289017107081850690630666655994938275772572015763062690663332647565300009245888316433037779791869612049497390377829704905051080609940730262937128958950003583799967207254304360284078895771796150945516748243471030702609144621572289880258182545180325707018860872113128079512233426288368622321503775666622503982534335974568884423900265498198385487948292206894721689831099698365846814022854243330660339850886445804001034933970427567186443383770486037861622771738545623065874679014086723327636718751234567890123456789012345678901e-308",
 }
 
+// fixedTiny: plain fixed notation — digits, one point, digits, no exponent — for tiny values: 20 to 340
+// digits after the point, of which only the last 1 to 15 (sometimes up to 25) are significant,
+// with or without the leading "0". What `%.30f`, FormatFloat(x, 'f', -1, 64) and the testing package
+// print for very small measurements; the region where "integer / power of ten" shortcuts stop
+// being exact (10^23 and beyond are not floats; 10^309 is +Inf).
+func fixedTiny(r *hx.Rand) string {
+	var s string
+	switch r.Intn(5) {
+	case 0: // shortest fixed form of a random tiny float
+		e := -(20 + r.Intn(304))
+		x := (1 + 9*r.Float()) * math.Pow(10, float64(e))
+		if r.Chance(1, 8) {
+			x = math.Float64frombits(1 + r.U64()%(1<<uint(1+r.Intn(52)))) // subnormal
+		}
+		s = strconv.FormatFloat(x, 'f', -1, 64)
+	case 1: // a float with few significant digits, printed in fixed form
+		e := -(20 + r.Intn(300))
+		nd := 1 + r.Intn(15)
+		m, _ := strconv.ParseFloat(randDigits(r, nd)+"e"+strconv.Itoa(e-nd), 64)
+		s = strconv.FormatFloat(m, 'f', -1, 64)
+	default: // zeros, then 1..15 digits (sometimes more)
+		frac := 20 + r.Intn(321)
+		nd := 1 + r.Intn(15)
+		if r.Chance(1, 6) {
+			nd = 16 + r.Intn(10)
+		}
+		if nd > frac {
+			nd = frac
+		}
+		ds := randDigits(r, nd)
+		if ds[0] == '0' {
+			ds = string(rune('1'+r.Intn(9))) + ds[1:]
+		}
+		s = "0." + strings.Repeat("0", frac-nd) + ds
+		if r.Chance(1, 5) { // boundaries of the shortcut: 22/23 fraction digits, 308/309
+			f := hx.Pick(r, []int{22, 23, 24, 25, 28, 308, 309, 310, 323, 324, 325})
+			if nd > f {
+				nd = f
+				ds = ds[:nd]
+			}
+			s = "0." + strings.Repeat("0", f-nd) + ds
+		}
+	}
+	if !strings.Contains(s, ".") {
+		s += ".0"
+	}
+	if strings.HasPrefix(s, "0.") && r.Chance(1, 3) {
+		s = s[1:] // ".000…"
+	} else if r.Chance(1, 10) {
+		s = "00" + s
+	}
+	if r.Chance(1, 8) {
+		s = hx.Pick(r, []string{"-", "+"}) + s
+	}
+	if r.Chance(1, 10) {
+		s += strings.Repeat("0", 1+r.Intn(4)) // trailing zeros do not change the value
+	}
+	return s
+}
+
 func genNum(r *hx.Rand) (string, string) {
+	if r.Chance(1, 18) {
+		return fixedTiny(r), "fixed"
+	}
 	switch r.Intn(20) {
 	case 0, 1, 2: // within ±3 ulp of a random double, 17–40 significant digits
 		f := neighbour(randDouble(r), r.Intn(7)-3)
@@ -1207,6 +1270,10 @@ func main() {
 		"9223372036854775797", "9223372036854775798", "9223372036854775799", "9223372036854775807", "9223372036854775808", "922337203685477579", "922337203685477580", "922337203685477581",
 		"9007199254740993", "9007199254740992", "4503599627370495", "4503599627370496", "4503599627370497e1", "4503599627370495e22", "1e22", "1e23", "1e37", "1e38", "4503599627370495e37", "1e-22", "1e-23", "123456789012345678901234567890",
 		"1e10000", "1e-10000", "0e10000", "0e99999", "0x0p99999", "0x1p1024", "0x1p1023", "0x1.fffffffffffff8p1023", "0x1.fffffffffffff7ffp1023", "0x1p-1074", "0x1p-1075", "0x1.00000000000001p-1075", "0x1p-1076", "0x1.8p-1074", "0x0.0000000000001p-1022", "0x1.fffffffffffffp-1023", "0x1.000000000000082p0", "0x1.000000000000080p0", "0x1.000000000000081p0", "0x1.0000000000000c2p0"} {
+		lineCase("1", s, "corpus", true)
+	}
+	for _, s := range []string{"0.0000000000000000000000004", "0.000000000000000000000032", ".0000000000000000000000000002",
+		"0." + strings.Repeat("0", 315) + "123456789012345", "0.0000000000000000000001", "0.00000000000000000000001", "0." + strings.Repeat("0", 307) + "1", "0." + strings.Repeat("0", 308) + "1", "0." + strings.Repeat("0", 323) + "5", "0." + strings.Repeat("0", 323) + "2"} {
 		lineCase("1", s, "corpus", true)
 	}
 	for _, s := range []string{"0", "1", "-1", "+1", "9223372036854775807", "9223372036854775808", "-9223372036854775808", "-9223372036854775809", "999999999999999999", "1000000000000000000", "0000000000000000001", "+", "-", "1_0", "0x1"} {
